@@ -260,9 +260,25 @@ class World:
         return False
 
     def canon(self):
-        return (min(self.run, MAX_TOLERATED + 2), tuple(sorted(self.phases)),
-                min(getattr(self.app, "_watchdog_failures", 0), MAX_TOLERATED + 2),
-                getattr(self.app, "_watchdog_feed_counter", 0) % self.period)
+        return (min(self.run, MAX_TOLERATED + 2), tuple(sorted(self.phases)), self._impl_state())
+
+    def _impl_state(self):
+        """Every integer the application keeps under a name that mentions the watchdog -- directly or inside a small state object --
+        each as (saturated at the tolerated maximum + 2, modulo the clear period): whichever of them is the run of failures or the
+        feed counter, under whatever name, the canonical state separates what the implementation separates and stays finite."""
+        out = []
+        for k, v in sorted(vars(self.app).items()):
+            if "watchdog" not in k.lower():
+                continue
+            vals = []
+            if type(v) is int:
+                vals = [(k, v)]
+            elif hasattr(v, "__dict__") or hasattr(type(v), "__slots__"):
+                names = list(getattr(v, "__dict__", {})) + [n for n in getattr(type(v), "__slots__", ()) if isinstance(n, str)]
+                vals = [(k + "." + n, getattr(v, n)) for n in sorted(set(names)) if hasattr(v, n) and type(getattr(v, n)) is int]
+            for name, x in vals:
+                out.append((name, min(x, MAX_TOLERATED + 2), x % self.period))
+        return tuple(out)
 
     def close(self):
         self.loop.shutdown()
